@@ -192,7 +192,19 @@ pub fn check_closed(th: &Theory, s: &Structure, include_builtin: bool) -> Vec<Un
                     Atom::Eq(l, r) => {
                         match (eval_term(th, s, l, env), eval_term(th, s, r, env)) {
                             (Some(a), Some(b)) if a == b => next.push(env.clone()),
-                            (Some(a), Some(b)) => fail(format!("concluded equality does not hold: {a} != {b}"), &mut bad),
+                            (Some(a), Some(b)) => {
+                                // where a function graph is not single-valued (reported separately as a functionality
+                                // violation) `f(args) = v` is read as "the tuple (args, v) is present"
+                                let as_tuple = |t: &Term, v: u32| -> bool {
+                                    if let Term::App(f, args) = t {
+                                        let vals: Option<Vec<u32>> = args.iter().map(|x| eval_term(th, s, x, env)).collect();
+                                        if let Some(mut row) = vals { row.push(v); return s.rels[*f].contains(&row); }
+                                    }
+                                    false
+                                };
+                                if as_tuple(l, b) || as_tuple(r, a) { next.push(env.clone()) }
+                                else { fail(format!("concluded equality does not hold: {a} != {b}"), &mut bad) }
+                            }
                             _ => fail("a side of a concluded equality is undefined".to_string(), &mut bad),
                         }
                     }
@@ -307,6 +319,24 @@ impl<'a> ChaseState<'a> {
     }
 }
 
+/// A value created for `f(args)` (by define_ or by a `!` conclusion) lives in its natural parent: the receiver of a
+/// member function, the codomain of the morphism for a morphism application (which is made defined if necessary).
+/// Under well-typed inputs every value of such a function is of this kind, so the fact is part of "f(args) is defined".
+fn natural_parent_facts(th: &Theory, st: &mut ChaseState, f: usize, args: &[u32], id: u32) -> Result<(), ChaseError> {
+    match th.natural_parent(f) {
+        NaturalParent::None => {}
+        NaturalParent::Arg0 { membership } => { st.rels[membership].insert(vec![args[0], id]); }
+        NaturalParent::CodOfArg0 { cod, membership } => {
+            let m = st.find(args[0]);
+            let existing = st.rels[cod].iter().find(|t| st.find(t[0]) == m).map(|t| t[1]);
+            let c = match existing { Some(c) => c, None => { let c = st.fresh(th.rels[cod].arity[1]); st.rels[cod].insert(vec![args[0], c]); c } };
+            st.rels[membership].insert(vec![c, id]);
+        }
+        NaturalParent::Unsupported => return Err(ChaseError::Unsupported(format!("`!` / define_ on {} (member-typed result without a natural parent)", th.rels[f].name))),
+    }
+    Ok(())
+}
+
 pub fn chase(th: &Theory, assertions: &[Assertion], elem_cap: usize, round_cap: usize, include_builtin: bool) -> Result<ChaseResult, ChaseError> {
     let mut st = ChaseState { th, parent: vec![], el_type: vec![], rels: vec![BTreeSet::new(); th.rels.len()] };
     let mut handles: Vec<u32> = Vec::new();
@@ -317,6 +347,7 @@ pub fn chase(th: &Theory, assertions: &[Assertion], elem_cap: usize, round_cap: 
                 let res_ty = *th.rels[*rel].arity.last().unwrap();
                 let id = st.fresh(res_ty);
                 let mut t: Vec<u32> = args.iter().map(|&h| handles[h]).collect();
+                natural_parent_facts(th, &mut st, *rel, &t, id)?;
                 t.push(id);
                 st.rels[*rel].insert(t);
                 handles.push(id);
@@ -403,6 +434,7 @@ pub fn chase(th: &Theory, assertions: &[Assertion], elem_cap: usize, round_cap: 
             if st.rels[f].iter().any(|t| t[..n] == args[..]) { continue; }
             if st.parent.len() >= elem_cap { return Err(ChaseError::ElementCap); }
             let id = st.fresh(*th.rels[f].arity.last().unwrap());
+            if let Err(e) = natural_parent_facts(th, &mut st, f, &args, id) { return Err(e); }
             let mut t = args; t.push(id);
             st.rels[f].insert(t);
             fired = true;
